@@ -5,12 +5,14 @@ from . import par
 
 
 def cases(chunks, every, seed):
-    n = 0
+    import zlib
     for ch in chunks:
         for line in ch:
-            n += 1
+            # chosen and decorated by content, not by position: TLC's emission order varies from run to run
+            n = zlib.crc32(line.encode())
             if (n + seed) % every:
                 continue
+            n = n % 9973
             st = C.decode(line)
             # one document with sub-classing on / off / custom; a list of two documents
             yield [{"st": st, "salt": n, "variants": [(n % 7, "on", 1), ((n + 1) % 7, "off", 1), ((n + 2) % 7, "custom", 1), ((n + 3) % 7, "on", 2)]}]
